@@ -352,7 +352,7 @@ func (c *Canvas) Paint(op backend.PaintOp) {
 	c.ev("Paint", []Fl{Fl(op)})
 	if c.doc.CheckProtocol {
 		if c.pathOps == 0 {
-			c.doc.violate("Paint(%s) with an empty current path", op)
+			c.doc.violate("Paint with an empty current path (op: %s)", op)
 		}
 		if op&backend.FillEvenOdd != 0 && op&backend.FillNonZero != 0 {
 			c.doc.violate("Paint with both fill rules")
